@@ -283,7 +283,9 @@ def run(prog):
     out += [force_permutation(prog)]
     out += order_selection(prog)
     out += table_iterations(prog)
-    if n < 8:
+    if n < 3:
+        # accessors (`get`, `var_at_level`) may legitimately absorb most direct table accesses; fewer than three means the
+        # two tables themselves were not found
         raise CheckerError("VO: only %d table accesses recognised" % n)
     return out
 
@@ -634,15 +636,22 @@ def table_iterations(prog):
                 src = strip(src[2][0])
             tab = show(src)
             which = "var_to_pos" if tab.endswith("var_to_pos") else ("pos_to_var" if tab.endswith("pos_to_var") else None)
-            clo = cs.args[1]
-            if which is None or not (isinstance(clo, tuple) and clo[0] == "agg" and clo[1] == "closure"):
+            clo = strip(cs.args[1])
+            if which is None:
                 continue
-            kids = [g for g in prog.lib_fns if g.npath == clo[2]]
-            if not kids:
-                continue
-            r = strip(kids[0].terms.ret)
-            if not (mir.is_call(r, "new") or mir.is_call(r, "new_usize")) or "VarLabel" not in r[1].key():
-                continue
+            if isinstance(clo, tuple) and clo and clo[0] == "fnref":
+                # a function item as the callback: `.map(VarLabel::new_usize)`
+                if clo[1].name not in ("new", "new_usize") or "VarLabel" not in (clo[1].key() or ""):
+                    continue
+            else:
+                if not (isinstance(clo, tuple) and clo[0] == "agg" and clo[1] == "closure"):
+                    continue
+                kids = [g for g in prog.lib_fns if g.npath == clo[2]]
+                if not kids:
+                    continue
+                r = strip(kids[0].terms.ret)
+                if not (mir.is_call(r, "new") or mir.is_call(r, "new_usize")) or "VarLabel" not in r[1].key():
+                    continue
             n += 1
             ok = which == "pos_to_var"
             out.append(inst("VO", "%s:iter-elements" % fn.npath, OK if ok else VIOLATION, fn, cs.line,
@@ -650,5 +659,8 @@ def table_iterations(prog):
                             "the elements of var_to_pos are levels, but they are turned into VarLabels: the iterator yields the "
                             "inverse permutation of the order (equal only for self-inverse orders)"))
     if n < 3:
-        raise CheckerError("VO: expected >= 3 table iterations producing labels, found %d" % n)
+        # fewer iterators than counted by hand: say so as an instance of this sub-rule (the properties that select it fail
+        # closed) instead of taking the whole family down
+        out.append(inst("VO", "%s:iter-elements" % VO, UNDECIDED, None, None,
+                        "? expected >= 3 table iterations producing labels, found %d" % n))
     return out
